@@ -416,16 +416,9 @@ def modifyFirst {α : Type} (p : α → Bool) (f : α → α) : List α → List
   | [] => []
   | x :: r => if p x then f x :: r else x :: modifyFirst p f r
 
-/-- the frame as `from_packet` reads it: with repair D36 `match.nw_tos = p.tos & 0xfc` -/
-def clearEcn (cfg : Cfg) (p : PHdr) : PHdr :=
-  if cfg.tosDscp then
-    match p.l3 with
-    | .ipv4 sa da pr tos frag l4 => { p with l3 := .ipv4 sa da pr (dscpOf tos) frag l4 }
-    | _ => p
-  else p
-
-/-- `ofp_match.from_packet(packet, in_port, spec_frags=True)` of the code variant -/
-def pktMatch (cfg : Cfg) (p : PHdr) (inPort : Nat) : OfMatch := cfg.mv.fromPacket (clearEcn cfg p) inPort
+/-- `ofp_match.from_packet(packet, in_port, spec_frags=True)` of the code variant; with repair D36 the IPv4 branch stores
+    `match.nw_tos = p.tos & 0xfc`: the ToS value of the packet's match is the masked one (an unset `nw_tos` holds 0 either way) -/
+def pktMatch (cfg : Cfg) (p : PHdr) (inPort : Nat) : OfMatch := dscp cfg (cfg.mv.fromPacket p inPort)
 
 /-- `entry.match.matches_with_wildcards(packet_match, consider_other_wildcards=False)` -/
 def accepts (cfg : Cfg) (pm : OfMatch) (e : FEntry) : Bool := matchW cfg false e.mtch pm
